@@ -36,14 +36,35 @@ CFG = {'streams': [{'name': 'C07',
          'token delete/duplicate/swap, stray delimiters, truncation, huge integers and $-indices (2^32, 2^64-1, 2^64, 23 digits), NUL and '
          'non-ASCII characters (é, U+00A0, U+2028, U+3000, U+000B, 日, U+FF10, U+0661), near-miss keywords, top-level keywords in front of a '
          'stanza, deep nesting, queries with two patterns, invalid queries, invalid scan regexes, bad #literals/@captures',
- 'explanation': 'TODO-COQ (theorem texts to be filled in). Correspondence: the real parser under catch_unwind and a wall clock vs parse of '
-                'Model/Parser.v (vm_compute) with tree-sitter, the regex crate and the Unicode tables as per-case oracle tables keyed by what the '
-                'MODEL asks for (byte span of its own skip_query, merged query source, decoded scan pattern); compared: the whole AST including every '
-                'location, the scan patterns, or the error variant + location + payload.',
+ 'explanation': 'Theorems (Props/C07.v, all universally quantified, Closed under the global context): location_advance / st_after_position '
+                '(consuming ANY text: offset = sum of UTF-8 lengths, row = number of newlines, column = characters since the last newline); '
+                'whitespace_skip_spec (exactly the maximal prefix of whitespace and ; comments); string_literal_roundtrip (every legal escape '
+                'spelling); integer_literal_roundtrip + integer_literal_overflow (< 2^32 parsed, >= 2^32 is InvalidIntegerConstant, never a panic); '
+                'name_roundtrip, identifier_roundtrip; keyword_prefix_safe (every identifier other than exactly some/none is a plain condition); '
+                'parse_render_expr (round trip incl. all locations for all 14 expression forms under arbitrary layouts: gaps, trailing commas, '
+                'literal spellings) + layout_irrelevant_expr; parse_render_stmt and parse_render_block (round trip for all 11 statement forms, '
+                'attribute lists, condition lists, if/elif/else location bookkeeping, scan arms numbered in order of appearance, blocks nested to '
+                'any depth); unicode_sane_from_tables. Props/C05parse.v: parse_total, parse_never_out_of_fuel (fuel S(length text)), with witnesses '
+                'that the two tree-sitter-dependent panic sites are reachable if tree-sitter misbehaves. Correspondence: the real parser under '
+                'catch_unwind and a wall clock vs parse of Model/Parser.v (vm_compute) with tree-sitter, the regex crate and the Unicode tables as '
+                'per-case oracle tables keyed by what the MODEL asks for (byte span of its own skip_query, merged query source, decoded scan '
+                'pattern); compared: the whole AST including every location, the scan patterns, or the error variant + location + payload. '
+                'Mutants of the MODEL (column kept after newline; trailing comma rejected; `some` matched by prefix) are all detected by the '
+                'streams (193/200, 27/200, 1/200 differing cases before the generator was biased towards some*/none* conditions).',
  'assumptions': ['tree-sitter (Query::new on each stanza query + "@__tsg__full_match" and on the merged source), Regex::new and '
                  'char::is_alphabetic/is_alphanumeric/is_whitespace on non-ASCII characters are externals of the model; the harness records their '
                  'answers per case, found by an untrusted structure-only port of parser.rs; a missing answer is verdict 5, never an agreement',
                  'the Display text of `node` statements is not produced by the parser and is erased on both sides',
                  'HashSet/HashMap contents (inherited names, shorthands) are compared in sorted order',
                  'replay: the record holds the text and (AST-directed cases) the Debug text of the intended AST, which is compared again on replay'],
- 'partial': ['TODO-COQ']}
+ 'partial': ['parse_render_file (not proved): the round trip of parse_into_file over whole files - the loop over global / inherit / attribute / '
+             'stanza items (parse_global with its one-character quantifier, parse_shorthand, skip_query + parse_query with the tree-sitter oracle, '
+             'the merged query) and hence the end-to-end statement parse (render L file) = file. Proved below the items: the block of a stanza '
+             '(parse_render_block), every statement, attribute, condition and expression. The full statement is kept as a comment in '
+             'Props/C07.v; the file level is TESTED on every run by stream C07 (AST incl. stanza/global/shorthand locations vs the model and vs '
+             'the AST the generator wrote).',
+             'layouts of the theorems are slightly narrower than what the parser accepts: a gap is forced non-empty between a token ending and a '
+             'token starting with an identifier character (so `(f)x` or `for x in[1]`-style merges that the parser would still read correctly '
+             'are not claimed); the correspondence stream does generate them',
+             'hypothesis UnicodeSane (whitespace characters are not identifier characters) is about the external Unicode tables; it is checked '
+             'on the table of every correspondence case (uni_sane, a violation is ORACLE_MISS)']}
